@@ -507,3 +507,38 @@ def cc1_cmd(cc, src, out, extra=()):
 
 def norm_ws(t):
     return ' '.join(t.split())
+
+
+def header_probe(ctx, cc, work, name, src, keyfmt, skip=()):
+    """Dedicated probe of the compiler's own headers: a program that prints one `label value...` line per observation is built by chibicc, gcc
+    and clang (each with its own copy of the header); every line on which gcc and clang agree must be printed identically by chibicc.
+    keyfmt % label gives the violation key."""
+    p = os.path.join(work, name + '.c')
+    open(p, 'w').write(src)
+    res = {k: build_and_run(k, cc, p, work, name, timeout=60, include_rt=False) for k in ('chibicc', 'gcc', 'clang')}
+    ctx.evaluations += 1
+    g, c, x = res['gcc'], res['clang'], res['chibicc']
+    if g['stage'] != 'run' or c['stage'] != 'run':
+        raise Inconclusive('reference failed on the %s probe: %s' % (name, (g['err'] + c['err']).decode('utf-8', 'replace')[-300:]))
+    files = {name + '.c': src}
+    script = '$CHIBICC -o got.exe %s.c && ./got.exe > got.txt; gcc -w -o ref.exe %s.c && ./ref.exe > ref.txt; cmp -s got.txt ref.txt && exit 0; diff got.txt ref.txt | head; exit 1' % (name, name)
+    if x['stage'] != 'run' or x['rc'] != 0:
+        ctx.violation(keyfmt % ('rejected' if x['stage'] == 'compile' else 'crash'), '%s: %s' % (name, first_line(x['err'].decode('utf-8', 'replace'))), files=files, script=script)
+        return
+
+    def table(r):
+        d = {}
+        for l in r['out'].decode('utf-8', 'replace').split('\n'):
+            if ' ' in l:
+                k, v = l.split(' ', 1)
+                d[k] = v
+        return d
+    tg, tc, tx = table(g), table(c), table(x)
+    for k in sorted(tg):
+        if k in skip or tc.get(k) != tg[k]:
+            ctx.count('header_observations_reference_ambiguous')
+            continue
+        ctx.count('header_observations')
+        ctx.saw('%s:%s' % (name, k))
+        if tx.get(k) != tg[k]:
+            ctx.violation(keyfmt % k, '%s: chibicc prints `%s`, gcc = clang `%s`' % (k, tx.get(k), tg[k]), files=files, script=script)
